@@ -34,24 +34,28 @@ def summarize(cases):
     return dist
 
 
-def run_mode(ctx, mode, count, pid, collide=False):
-    cases = l2common.gen_cases(ctx, mode, count, ctx.seed)
+def run_mode(ctx, mode, count, pid, collide=False, oracle=None):
+    """corpus first, then seeded cases; model correspondence on all, [oracle] (default: reference map) judges the implementation"""
+    corpus = l2common.corpus_cases(ctx, pid)
+    cases = corpus + l2common.gen_cases(ctx, mode, count, ctx.seed)
+    ctx.last_cases = cases
     mm, ns, ok = l2common.evaluate(ctx, cases, pid.lower())
     sm = []
     for c in cases:
-        sm += l2common.refmap_oracle(c, collide=collide)
+        sm += oracle(c) if oracle else l2common.refmap_oracle(c, collide=collide)
     nt = {vlib.sha([c["cfg"], [(o["op"], o.get("k"), o.get("v"), o.get("rev")) for o in c["ops"]]]) for c in cases if is_nontrivial(c)}
     samples = [dict(cfg={k: c["cfg"][k] for k in ("nb", "height", "filemax", "splitcap", "checkvhash")},
                     ops=" ".join(o["op"] for o in c["ops"])[:200],
                     replies=[o["res"] for o in c["ops"][:12]]) for c in cases[:4]]
     return dict(evaluations=len(cases), distinct_nontrivial=len(nt), samples=samples, model_mismatches=mm, spec_violations=sm,
                 shards=ns, shards_ok=ok, dist=summarize(cases),
-                extra=dict(ops_replayed=sum(len(c["ops"]) for c in cases)),
-                rule="seeded histories of 20..100 operations (set with auto/explicit revision, delete, incr, get, meta-get, forced "
-                     "flush, hint dump, restart with a subset of index files removed, GC in gc modes) over 2..7 valid keys of one "
-                     "bucket; bucket count 1/16/256, data-file limit 1KB..default, hint split capacity 2..default, check_vhash on/off; "
-                     "values empty / across the 256-byte block boundary / compressible / incompressible / sniffed audio / numeric; "
-                     "non-trivial = >= 2 writes and at least one flush, hint dump, restart or GC; distinct by SHA-256 of config + operations")
+                extra=dict(ops_replayed=sum(len(c["ops"]) for c in cases), corpus_cases=len(corpus)),
+                rule="corpus histories first, then seeded histories of 20..100 operations (set with auto/explicit revision, delete, incr, "
+                     "get, meta-get, forced flush, hint dump, restart with a subset of index files removed, GC range requests and passes "
+                     "in gc modes) over 2..7 valid keys of one bucket; bucket count 1/16/256, data-file limit 1KB..default, hint split "
+                     "capacity 2..default, check_vhash on/off; values empty / across the 256-byte block boundary / compressible / "
+                     "incompressible / sniffed audio / numeric; non-trivial = >= 2 writes and at least one flush, hint dump, restart or "
+                     "GC; distinct by SHA-256 of config + operations")
 
 
 def run(ctx):
